@@ -209,6 +209,21 @@ func runCheck(P *Prog, opt CheckOpts) int {
 		}
 	}
 
+	// Consistency of the background theory: one query per distinct header (set of prelude modules in use), with
+	// the quantified axioms in place. "unsat" means contradictory axioms: every proof under that header would be
+	// vacuous, so it is reported as a violation of the property being checked.
+	seenHdr := map[string]bool{}
+	for _, it := range append([]*Result{}, items...) {
+		h := strings.Join(sortedKeys(it.T.uses), "+") // the axioms come from the prelude modules in use
+		if seenHdr[h] {
+			continue
+		}
+		seenHdr[h] = true
+		name := fmt.Sprintf("prelude#consistent.%s", strings.Join(sortedKeys(it.T.uses), "+"))
+		o := &Oblig{Name: name, Kind: "prelude", Fn: "prelude", Tags: []string{prop}, Goal: "true", Ctx: 0, Expect: "sat", Pos: "prelude", Desc: "the background theory in use is consistent (vacuity guard)"}
+		items = append(items, &Result{O: o, T: it.T})
+	}
+
 	sopt := SolveOpts{OutDir: opt.OutDir, Tier: opt.Tier, Workers: runtime.NumCPU(), QuickSec: 5, FullSec: 20}
 	if opt.Tier == "thorough" {
 		sopt.QuickSec, sopt.FullSec = 10, 120
